@@ -146,7 +146,7 @@ func (exp *exporter) epubGenContentOpf(title string, lang string, cover string) 
 `)
 	// XXX remove opf from metadata tag in epub 3 ? (I think no)
 	fmt.Fprintf(buf, "<dc:identifier id=\"epub-id-1\">%s</dc:identifier>\n", ctx.Params["epub-uuid"])
-	fmt.Fprintf(buf, "<dc:language>%s</dc:language>\n", lang)
+	fmt.Fprintf(buf, "<dc:language>%s</dc:language>\n", html.EscapeString(lang))
 	fmt.Fprintf(buf, "<dc:title id=\"epub-title-1\">%s</dc:title>\n", title)
 	if epub3 {
 		var t string
@@ -340,7 +340,7 @@ func (exp *exporter) epubGenNav(title string) {
 	buf.WriteString(`<?xml version="1.0" encoding="utf-8"?>
 <!DOCTYPE html>
 `)
-	fmt.Fprintf(buf, "<html xmlns=\"http://www.w3.org/1999/xhtml\" xml:lang=\"%s\"\n", ctx.Params["lang"])
+	fmt.Fprintf(buf, "<html xmlns=\"http://www.w3.org/1999/xhtml\" xml:lang=\"%s\"\n", html.EscapeString(ctx.Params["lang"]))
 	buf.WriteString(`      xmlns:epub="http://www.idpf.org/2007/ops">
 <head>
     <meta charset="utf-8" />
